@@ -107,7 +107,15 @@ def events_for(pp, rnd, A, tag):
     if len(text) % 2:
         # a string is immutable: adding something to the SAME text first must not matter for what follows
         call(lambda: pp.add_mods(text, {"nterm": [Mod("EDIT", 1)], 0: [Mod("EDIT", 1)]}))
-    o, r = call(lambda: pp.add_mods(pp.strip_mods(text), pp.get_mods(text)))
+    if len(text) % 3 == 0:
+        # one modification dictionary used twice (the recorded answer is the second one)
+        def twice():
+            d = pp.get_mods(text)
+            pp.add_mods(pp.strip_mods(text), d)
+            return pp.add_mods(pp.strip_mods(text), d)
+        o, r = call(twice)
+    else:
+        o, r = call(lambda: pp.add_mods(pp.strip_mods(text), pp.get_mods(text)))
     add("moddict", out=o, res=r if o == "ret" else "")
     a = anngen.build(pp, A)
     o, b = call(lambda: pp.create_annotation(**a.dict()))
